@@ -54,7 +54,19 @@ static MemPools vpTmpMemPools;
 MemPools &MemPools::GetInstance() { return vpTmpMemPools; }
 MemPools::MemPools() {}
 void MemPools::flushMeters() {}
-Mem::Allocator *MemPools::create(const char *, size_t) { return nullptr; }
+/// plain calloc/free pool for the users of memPoolCreate() (the real cbdata.cc in C44)
+class VpMallocPool: public Mem::Allocator
+{
+public:
+    VpMallocPool(const char *label, const size_t sz): Mem::Allocator(label, sz) {}
+    size_t getStats(Mem::PoolStats &) override { return 0; }
+    bool idleTrigger(int) const override { return false; }
+    void clean(time_t) override {}
+protected:
+    void *allocate() override { return xcalloc(1, objectSize); }
+    void deallocate(void *p) override { xfree(p); }
+};
+Mem::Allocator *MemPools::create(const char *label, size_t sz) { return new VpMallocPool(label, sz); }
 void MemPools::clean(time_t) {}
 void MemPools::setDefaultPoolChunking(bool const &) {}
 
